@@ -77,7 +77,7 @@ def spaces(tier, seed):
     k = -1
     for method, w in (("sad", 1), ("sad", 3), ("census", 3), ("zncc", 3), ("ssd", 1)):
         for subpix in (1, 2, 4):
-            for form in ("scalar", "grid", "fgrid"):
+            for form in ("scalar", "grid", "fgrid", "gmaxonly", "gminonly"):
                 for mask in ("none", "left", "right"):
                     for inv in (-9999, "NaN"):
                         k += 1
@@ -226,6 +226,12 @@ def run_machine(case):
     else:
         gmin = (-2 + (rr + cc) % 3).astype(np.float32)
         gmax = (gmin + (rr * 2 + cc) % 3).astype(np.float32)
+        if case["form"] == "gmaxonly":  # only the upper bounds vary from pixel to pixel
+            gmin = np.full((ny, nx), -2, dtype=np.float32)
+            gmax = (-2 + (rr * 2 + cc) % 5).astype(np.float32)
+        elif case["form"] == "gminonly":  # only the lower bounds vary
+            gmax = np.full((ny, nx), 2, dtype=np.float32)
+            gmin = (2 - (rr * 2 + cc) % 5).astype(np.float32)
         if case["form"] == "fgrid":
             # float grids whose bounds are no multiple of the sampling step (a prediction +/- a margin); some of
             # the intervals hold no sample at all
